@@ -1,4 +1,6 @@
 import SqlObjVerif.Lemmas.OrmVal
+import SqlObjVerif.Lemmas.OrmValXSync
+import SqlObjVerif.Lemmas.OrmValXSet
 /-!
 # C16 — lazy updates: nothing written before sync, exactly the pending values after
 
@@ -341,5 +343,45 @@ example : Hist (AssignOnLazy exCfg16) exCfg16
       ∀ o, s.objs h = some o → exCfg16.lazyUpdate o.cls = true := by
     intro s h hb o ho; simpa [ho] using hb
   exact ⟨lz _ _ (by decide), lz _ _ (by decide), trivial⟩
+
+/-! ## The hand model of the lazy-update methods IS the translated source
+
+`vlib/extractors/pymain.py` translates `SQLObject.syncUpdate`, `sync`, `_SO_setValue`, `set` (and the readers:
+C05) from /repo's `main.py` into PyMain programs on every run; `Model/OrmValX.lean` runs them from
+`absW cfg i s o cv fail`, the image of instance `o` of model state `s` (`cv`: ANY Python dict standing for
+`o.pending`, `fail`: the database refuses the UPDATE); see the section of the same name in `Props/C05.lean`
+for the interface.  A semantic edit of these methods changes the translated programs and breaks these proofs. -/
+
+open SqlObjVerif.PyMain in
+/-- `syncUpdate()` = `opSyncUpdate`: nothing when nothing is pending; else ONE UPDATE holding the pending values
+    sorted by creation order, the pending dict and the dirty flag cleared only after it succeeded, the lock
+    released on every path -/
+theorem C16_translated_syncUpdate_eq_model (cfg : Cfg) (i : Iface) (s : State) (h : Hnd) (o : Inst) (cv : Pend)
+    (fail : Bool) (ho : s.objs h = some o) (hrep : Rep cv o.pending) (hcols : ∀ e ∈ o.pending, e.1 < cfg.ncols o.cls) :
+    absUnit o.cls o.id h (syncUpdateX o.cls o.id (cfg.ncols o.cls) h (absW cfg i s o cv fail)) =
+      some (opSyncUpdate s h fail) :=
+  syncUpdateX_eq cfg i s h o cv fail ho hrep hcols
+
+open SqlObjVerif.PyMain in
+/-- `sync()` = `opSync` -/
+theorem C16_translated_sync_eq_model (cfg : Cfg) (i : Iface) (s : State) (h : Hnd) (o : Inst) (cv : Pend) (fail : Bool)
+    (ho : s.objs h = some o) (hrep : Rep cv o.pending) (hcols : ∀ e ∈ o.pending, e.1 < cfg.ncols o.cls)
+    (hattrs : ∀ c, cfg.ncols o.cls ≤ c → o.cached c = none) (hn : cfg.ncols o.cls ≠ 0) (hi : i.Ok cfg o.cls) :
+    absUnit o.cls o.id h (syncX o.cls o.id (cfg.ncols o.cls) h (absW cfg i s o cv fail)) = some (opSync cfg s h fail) :=
+  syncX_eq cfg i s h o cv fail ho hrep hcols hattrs hn hi
+
+open SqlObjVerif.PyMain in
+/-- attribute assignment `obj.<c> = value` (`_SO_setValue` as the generated setter calls it) = `opSetattr`:
+    `Invalid` changes nothing; lazy: no statement, the database-side value stored in the pending dict, the shown
+    value cached, dirty set; eager: ONE UPDATE, the value cached only when it succeeded and the class caches -/
+theorem C16_translated_setValue_eq_model (cfg : Cfg) (i : Iface) (s : State) (h : Hnd) (o : Inst) (cv : Pend)
+    (fail : Bool) (c : Col) (inp : Inp) (ho : s.objs h = some o) (hrep : Rep cv o.pending)
+    (hc : c < cfg.ncols o.cls) (hi : i.Ok cfg o.cls) (hbad : inp = .bad → i.hasFrom c = true) :
+    absUnit o.cls o.id h (setValueX o.cls o.id (cfg.ncols o.cls) h (absW cfg i s o cv fail) c inp) =
+      some (opSetattr cfg s h c inp fail) :=
+  setValueX_eq cfg i s h o cv fail c inp ho hrep hc hi hbad
+
+/-- non-vacuity: the hypotheses hold for a lazy instance with pending values kept in insertion order -/
+example : Rep [(2, some 5), (0, none)] [(0, none), (2, some 5)] := ⟨by decide, by decide⟩
 
 end SqlObjVerif.OrmVal
